@@ -416,6 +416,44 @@ func runC19(c *ShardCtx) {
 			}
 		}
 	}
+	// first-set family: the sets InitialNames() hands out for terminals, code expressions and throws
+	// (no names) next to a recovery operator whose recovery expression starts with a rule: S loops
+	// over W X; X <- T //{l} R with T a terminal / code expression / throw, alone or under a label,
+	// a predicate, ? * +; R <- K; K starts with a terminal (sequence, choice, action). What the
+	// first-call graph says about K must not depend on whether X was visited before K
+	{
+		ts := []func() *peg.Expr{
+			func() *peg.Expr { return lit(";") }, func() *peg.Expr { return peg.Cls(false, false, ";") }, func() *peg.Expr { return peg.Any() },
+			func() *peg.Expr { return peg.AndCode(0) }, func() *peg.Expr { return peg.StateCode(0) }, func() *peg.Expr { return peg.Throw("l") },
+			func() *peg.Expr { return peg.Label("x", lit(";")) }, func() *peg.Expr { return peg.And(lit(";")) }, func() *peg.Expr { return peg.Opt(lit(";")) },
+			func() *peg.Expr { return peg.Plus(peg.Cls(false, false, ";")) }, func() *peg.Expr { return peg.Not(peg.Any()) },
+		}
+		ks := []func() *peg.Expr{
+			func() *peg.Expr { return peg.Seq(peg.Star(peg.Cls(true, false, ";")), lit(";")) }, func() *peg.Expr { return peg.Choice(lit(";"), lit("a")) },
+			func() *peg.Expr { return peg.Action(0, lit(";")) }, func() *peg.Expr { return peg.Seq(lit("a"), peg.Ref("R")) },
+		}
+		for _, t := range ts {
+			for _, k := range ks {
+				for shape := 0; shape < 2; shape++ {
+					if c.Expired("first-set family") {
+						return
+					}
+					var x *peg.Expr
+					if shape == 0 {
+						x = peg.Recover(t(), peg.Ref("R"), "l")
+					} else {
+						x = peg.Recover(peg.Seq(t(), lit("q")), peg.Seq(peg.Opt(lit("a")), peg.Ref("R")), "l")
+					}
+					g := &peg.Grammar{Rules: []*peg.Rule{
+						{Name: "S", Expr: peg.Seq(peg.Star(peg.Seq(peg.Ref("W"), peg.Ref("X"))), peg.Not(peg.Any()))},
+						{Name: "X", Expr: x}, {Name: "W", Expr: peg.Plus(peg.Cls(false, false, "a-z"))}, {Name: "R", Expr: peg.Ref("K")}, {Name: "K", Expr: k()}}}
+					peg.Renumber(g, 1)
+					peg.AssignArgs(g)
+					one(g, append([]hook.Req{{}}, lrSets[:1]...))
+				}
+			}
+		}
+	}
 	// emission family: what the builder WRITES (tables, names, blocks, literals) under every
 	// combination of the generation flags: grammars with several different classes, literals,
 	// labels, blocks of all kinds, recovery, a left-recursive rule; and every body of the cross
